@@ -542,7 +542,83 @@ def module_variants_oracle(run):
             run.oracle_ok("module_variants")
 
 
+def selftest(run):
+    """harness self-test: with the pinned `_OutKeysSelect` hook (select(*in_keys, *out_keys, inplace=True)) monkey-patched in,
+    the `hook` oracle's criterion must notice the lost entry; otherwise the run is an infrastructure failure"""
+    import unittest.mock as mock
+    from common import Infra
+    from tensordict.nn.common import _OutKeysSelect
+    from tensordict.nn import TensorDictModule
+
+    def old_call(self, module, tensordict_in, kwargs, tensordict_out):
+        return tensordict_out.select(*module.in_keys, *self.out_keys, inplace=True, strict=False)
+    with mock.patch.object(_OutKeysSelect, "__call__", old_call):
+        mod = TensorDictModule(G.make_fn(0, 2), in_keys=["a"], out_keys=["c", "d"])
+        mod.select_out_keys("d")
+        td = G.make_input(["a", "b"])
+        keep = td.get("b")
+        out = mod(td)
+    lost = out.get("b", None) is not keep
+    run.count("selftest.pinned_hook_detected", int(lost))
+    if not lost:
+        raise Infra("harness self-test: the pinned select_out_keys hook was not noticed")
+
+
+def batched_oracle(run):
+    """the same sequence on a batched tensordict and on a lazy stack of homogeneous members computes, row by row, what the
+    reference interpreter computes on each row"""
+    from tensordict import LazyStackedTensorDict
+    rng = run.rng
+    n = 60 if run.tier == "quick" else 600
+    for _ in range(n):
+        prog = G.gen_prog(rng)
+        if any(not m["ins"] for m in prog):
+            continue   # a function without inputs cannot know the batch size: not a case for this oracle
+        env = G.gen_env(rng, prog, "good")
+        psx = G.prog_sx(prog)
+        run.case(("batched", psx, str(env)))
+        rows = [G.make_input(env, salt=s) for s in (0, 17, 4242)]
+        kind = rng.choice(["dense", "lazy"])
+        td = torch.stack(rows, 0) if kind == "dense" else LazyStackedTensorDict(*rows, stack_dim=0)
+        seq = G.build_seq(prog)
+        try:
+            with time_limit(60):
+                out = seq(td)
+        except TimeoutError:
+            raise
+        except Exception:  # noqa: BLE001
+            out = None
+        # reference per row: same interpreter, inputs shifted by the salt
+        want = []
+        for s in (0, 17, 4242):
+            e = {k: (G.input_val(k) + s) % G.P for k in env}
+            ok = True
+            for m in prog:
+                if any(k not in e for k in m["ins"]):
+                    ok = False
+                    break
+                a = [e[k] for k in m["ins"]]
+                for i, k in enumerate(m["outs"]):
+                    if k != G.SINK:
+                        e[k] = G.app_val(m["f"], a, i)
+            want.append(sorted(e.items(), key=lambda kv: str(kv[0])) if ok else None)
+        run.count("batched.kind", kind)
+        if out is None:
+            if any(w is not None for w in want):
+                run.oracle_fail("batched", [psx, str(env), kind], "the sequence raised on a batched input although every row holds the in_keys", "batched:raised")
+            else:
+                run.oracle_ok("batched")
+            continue
+        got = [G.td_items(out[i]) for i in range(3)]
+        if got != want:
+            run.oracle_fail("batched", [psx, str(env), kind], "rows of the batched result differ from the per-row reference", "batched:values")
+        else:
+            run.oracle_ok("batched")
+
+
 def run_more(run, drv, ask):
+    selftest(run)
+    batched_oracle(run)
     module_variants_oracle(run)
     dispatch_oracle(run)
     lazy_partial_oracle(run)
